@@ -4,6 +4,7 @@
 # passes without it; then runs the quick check of the property against it.
 # Output: one line  SEED <ID>/<variant> suite=<ok|FAIL> demo_clean=<pass|FAIL> demo_patched=<fail|PASS> check=<CAUGHT|MISSED|INCONCLUSIVE> :: class
 id=$1; x=$2; out=${3:-/tmp/seedout${SEEDROUND:-}-$id/$x}
+[ "${SEEDROUND:-}" = 1 ] && out=${3:-/tmp/seedout-$id/$x}
 export GOFLAGS=-mod=mod GOPROXY=off GOSUMDB=off GOTOOLCHAIN=local
 d=$(mktemp -d /tmp/vseed-XXXXXX)
 rsync -a --exclude .git /repo/ "$d/"
@@ -23,4 +24,4 @@ cls=$(echo "$res" | grep -m1 "class=" | sed 's/^ *//' | cut -c1-220)
 case $rc in 1) c=CAUGHT ;; 0) c=MISSED ;; *) c="INCONCLUSIVE($rc)"; cls=$(echo "$res" | tail -2 | tr '\n' ' ' | cut -c1-200) ;; esac
 echo "SEED $id/$x suite=$suite demo_clean=$demo_clean demo_patched=$demo_patched check=$c :: $cls"
 rm -rf "$d"
-rm -f /verif/bin/*.????????.test /verif/bin/*.????????.race.test 2>/dev/null
+tag=$(printf %s "$d" | sha256sum | cut -c1-8); rm -f /verif/bin/*.$tag.test /verif/bin/*.$tag.race.test /verif/work/alt.$tag.mod /verif/work/alt.$tag.sum 2>/dev/null
